@@ -45,7 +45,7 @@ class SyncEnv(Env):
 
     def poll_JoinHandle(s, M, st, th, fut, fref):
         t = st.gget('btasks')[fut.f[0].v]
-        if t['state'] == 'queued': return s.ret(st, PENDING)
+        if t['state'] not in ('done',): return s.ret(st, PENDING)
         res = st.heap.pop(t['result'])
         bt = dict(st.gget('btasks')); bt[fut.f[0].v] = dict(t, state='joined', result=None); st.gset('btasks', bt)
         return s.ret(st, ready(res))
@@ -70,6 +70,7 @@ class SyncEnv(Env):
     # ---- the wrapped value and the user's closures
     def d_Val(s, M, st, th, v):
         st.logev('val_drop', v.f[0].tag, th.name, th.kind)
+        if any(t['state'] == 'running' for t in st.gget('btasks', {}).values()): st.gset('drop_while_running', True)
         st.gset('val_drops', st.gget('val_drops', ()) + ((v.f[0].tag, th.name, th.kind),))
         return True
 
@@ -78,16 +79,32 @@ class SyncEnv(Env):
             k = fv2.f[0].v; want = fv2.f[1].tag
             tgt = M.deref(st, args[0]) if args and isinstance(args[0], Ref) else None
             alive = isinstance(tgt, Agg) and tgt.ty == 'Val'
-            st.logev('closure_run', k, th.name, th.kind, 'alive' if alive else 'dead')
-            st.gset('closure_runs', st.gget('closure_runs', ()) + ((k, th.name, th.kind, alive, len(st.gget('val_drops', ()))),))
-            if want == 'panic': return [('panic', st, f'user closure {k} panicked', 'user')]
-            return s.ret(st, Agg('UserResult', [I(k)]))
+            if s.cfg.get('split') and th.kind == 'blocking':
+                # the closure takes time: the thread stops inside it (holding whatever locks the wrapper took for it) and
+                # finishes when it is scheduled again
+                st.logev('closure_enter', k, th.name, th.kind, 'alive' if alive else 'dead')
+                M.push_k(th, 'env', 'closure_body', (k, want, alive))
+                th.at_point = 'closure.running'
+                return [('raw', [(st, 'stop')])]
+            return s._closure_finish(M, st, th, k, want, alive)
         if isinstance(fv2, Agg) and fv2.ty == 'CreateFn':
             st.logev('create_run', th.name, th.kind)
             st.gset('create_runs', st.gget('create_runs', ()) + ((th.name, th.kind),))
             if fv2.f[0].tag == 'err': return s.ret(st, err(Agg('CreateErr', [])))
             return s.ret(st, ok(Agg('Val', [Opaque('val:1')])))
         return None
+
+    def _closure_finish(s, M, st, th, k, want, alive):
+        st.logev('closure_run', k, th.name, th.kind, 'alive' if alive else 'dead')
+        st.gset('closure_runs', st.gget('closure_runs', ()) + ((k, th.name, th.kind, alive, len(st.gget('val_drops', ()))),))
+        if want == 'panic': return [('panic', st, f'user closure {k} panicked', 'user')]
+        return s.ret(st, Agg('UserResult', [I(k)]))
+
+    def k_closure_body(s, M, st, th, fr, why, rv, data):
+        th.stack.pop()
+        if why == 'unwind': return 'continue'
+        k, want, alive = data
+        return s._closure_finish(M, st, th, k, want, alive)
 
     def d_UserFn(s, M, st, th, v): return True
     def d_CreateFn(s, M, st, th, v): return True
@@ -106,7 +123,8 @@ class SyncBSE:
     def __init__(s, prog, cfg):
         c = {'max_interacts': 2, 'depth': 10, 'outcomes': ('ok', 'panic'), 'oracles': ('C14',), 'create': 'ok'}
         c.update(cfg); s.cfg = c
-        s.W = World(prog, SyncEnv()); s.M = s.W.M
+        s.W = World(prog, SyncEnv({'split': bool(c.get('split'))})); s.M = s.W.M
+        s.M.allow_block = bool(c.get('split'))
         s.M.enums.setdefault('Runtime', ['Tokio1']); s.M.enums.setdefault('InteractError', ['Panic', 'Aborted'])
         s.M.enums.setdefault('SpawnBlockingError', ['Panic'])
         s.F = lambda suf: s.W.find(suf, 'sync/src/lib.rs')
@@ -130,8 +148,10 @@ class SyncBSE:
     def actions(s, st):
         acts = []
         A = st.threads['A'].local
+        if st.gget('a_blocked'): return []
+        running = any(t['state'] == 'running' for t in st.gget('btasks', {}).values())
         for k, t in st.gget('btasks', {}).items():
-            if t['state'] == 'queued': acts.append(('run', k))
+            if t['state'] in ('queued', 'running') or (t['state'] == 'blocked' and not running): acts.append(('run', k))
         if 'fut' in A:
             acts.append(('poll',))
             if A.get('kind') == 'interact': acts.append(('cancel',))
@@ -147,19 +167,40 @@ class SyncBSE:
         A = st.threads['A'].local
         if a[0] == 'run':
             k = a[1]; t = st.gget('btasks')[k]
-            name = f'B{k}'; th = W.thread(st, name, 'blocking'); th.result = None
-            clo = st.heap.pop(t['closure'])
-            r = s.M.call_value(st, th, clo, [])
-            sts = [st] if r is None else [x for x, _ in r]
+            name = f'B{k}'; th = W.thread(st, name, 'blocking')
+            if t['state'] == 'queued':
+                th.result = None
+                clo = st.heap.pop(t['closure'])
+                bt = dict(st.gget('btasks')); bt[k] = dict(t, closure=None); st.gset('btasks', bt)
+                r = s.M.call_value(st, th, clo, [])
+                sts = [st] if r is None else [x for x, _ in r]
+            else:
+                th.at_point = None; sts = [st]
             for x in sts:
-                for y in (s.M.run(x, name) if x.threads[name].stack else [x]):
+                for y in (s.M.run(x, name) if x.threads[name].stack and x.threads[name].at_point is None else [x]):
                     thy = y.threads[name]; resv = thy.result
+                    if thy.stack:
+                        # stopped inside the task: in the user's closure, or waiting for a lock another thread holds
+                        stt = 'running' if thy.at_point == 'closure.running' else 'blocked'
+                        bt = dict(y.gget('btasks')); bt[k] = dict(bt[k], state=stt); y.gset('btasks', bt)
+                        y.gset('last', {'act': a, 'res': (stt,)}); outs.append(y); continue
                     rr = ok(resv[1]) if resv and resv[0] == 'ok' else err(Agg('JoinError', []))
                     root = y.alloc(rr)
                     bt = dict(y.gget('btasks')); bt[k] = dict(bt[k], state='done', result=root, panicked=not (resv and resv[0] == 'ok')); y.gset('btasks', bt)
                     y.threads.pop(name, None)
                     y.gset('last', {'act': a}); outs.append(y)
             return outs
+        if a[0] != 'run' and s.cfg.get('split'):
+            outs = s._apply_A(st, a)
+            for y in outs:
+                ta = y.threads['A']
+                if ta.stack and isinstance(ta.at_point, tuple) and ta.at_point[0] == 'blocked':
+                    y.gset('a_blocked', True); y.gset('last', {'act': a, 'res': ('blocked',)})
+            return outs
+        return s._apply_A(st, a)
+
+    def _apply_A(s, st, a):
+        W = s.W; outs = []; A = st.threads['A'].local
         if a[0] == 'interact':
             A['n'] += 1; k = A['n']
             wr = st.gget('wrapper')
@@ -226,6 +267,10 @@ class SyncBSE:
         for (tag, tn, kind) in st.gget('val_drops', ()):
             if kind != 'blocking': out.append(s.vio(f'the wrapped value was destroyed on thread {tn} ({kind}), not on a blocking thread', st))
         if len(st.gget('val_drops', ())) > 1: out.append(s.vio('the wrapped value was destroyed more than once', st))
+        if st.gget('a_blocked'):
+            out.append(s.vio(f'{a[0]} makes the async thread wait for the wrapper\'s mutex while an interact() closure is still running on the blocking pool', st))
+        if st.gget('drop_while_running'):
+            out.append(s.vio('the wrapped value was destroyed while an interact() closure was still using it', st))
         for (tn, kind) in st.gget('create_runs', ()):
             if kind != 'blocking': out.append(s.vio(f'the creation closure ran on thread {tn} ({kind})', st))
         for (k, tn, kind, alive, ndrops) in st.gget('closure_runs', ()):
@@ -261,7 +306,7 @@ class SyncBSE:
     def check_state(s, st):
         out = []
         # at quiescence after the wrapper is gone the value must have been destroyed exactly once (if it was created)
-        if st.gget('phase') == 'dropped' and not any(t['state'] == 'queued' for t in st.gget('btasks', {}).values()) and 'fut' not in st.threads['A'].local:
+        if st.gget('phase') == 'dropped' and all(t['state'] in ('done', 'joined') for t in st.gget('btasks', {}).values()) and 'fut' not in st.threads['A'].local and not st.gget('a_blocked'):
             if len(st.gget('val_drops', ())) != 1:
                 out.append(s.vio(f'after the wrapper was dropped and the blocking pool drained the value was destroyed {len(st.gget("val_drops", ()))} times', st))
         return out
@@ -272,10 +317,10 @@ class SyncBSE:
         L = st.threads['A'].local
         if 'fut' in L: roots.append(L['fut'])
         for k, t in sorted(st.gget('btasks', {}).items()):
-            if t['state'] == 'queued': roots.append(t['closure'])
+            if t['state'] == 'queued' and t.get('closure') is not None: roots.append(t['closure'])
             if t.get('result') is not None: roots.append(t['result'])
         bt = tuple((k, t['state']) for k, t in sorted(st.gget('btasks', {}).items()))
-        return (explore.state_key(st, roots, ('phase', 'val_drops', 'closure_runs', 'create_runs', 'results', 'cancelled')), bt)
+        return (explore.state_key(st, roots, ('phase', 'val_drops', 'closure_runs', 'create_runs', 'results', 'cancelled', 'a_blocked', 'drop_while_running')), bt)
 
     def describe(s, st): return {'trace': [list(map(str, e)) for e in st.log if e[0] in ('init', 'act')]}
 
